@@ -109,12 +109,45 @@ def build_workload(rng):
     return models, calls, services
 
 
+def corpus(rep):
+    """the repository's own example models that build and do not read the clock: [(name, xml, calls)] with every invocable
+    called with three of the sample input contexts of lib/xmlfault (typed values for the input data; the same plus the
+    decisions' and parameters' names; the same names with wrongly typed leaves)"""
+    import os
+    import xmlfault as xf
+
+    root = os.path.join(os.environ.get("VERIF_REPO") or "/repo", "examples")
+    found = []
+    for d, dirs, files in os.walk(root):
+        dirs.sort()
+        for f in sorted(files):
+            if f.endswith(".dmn"):
+                with open(os.path.join(d, f), encoding="utf-8", errors="replace") as fh:
+                    text = fh.read()
+                if re.search(r"\b(now|today)\s*\(", text) or len(text) > 400000:
+                    continue
+                found.append((os.path.relpath(os.path.join(d, f), root), text))
+    probes = [{"op": "model", "xml": text, "all": False} for _, text in found]
+    res, _ = runner.run_cases("dbg", probes, rep.workdir, label="corpus-probe", case_timeout=120)
+    out = []
+    for (name, text), r in zip(found, res):
+        if not isinstance(r, dict) or not r.get("invocables"):
+            continue
+        try:
+            inputs = xf.sample_inputs(xf.parse(text))
+        except Exception:
+            continue
+        calls = [[inv, inp] for inv in r["invocables"] for inp in (inputs[1], inputs[2], inputs[3])]
+        out.append((name, text, calls))
+    return out
+
+
 def run(rep, tier, seed):
     reps = 40 if tier == "quick" else 1500
     tsan_reps = 4 if tier == "quick" else 40
     rep.rule = (
         "%d repetitions (thread counts 2, 3, 4, 8, 16 in turn; 60-400 calls per thread) of seeded call permutations over 4 shared evaluators (regular-expression decisions incl. two that use the same patterns with and without flags / optional arguments, numeric, temporal-with-zones decisions, a decision made of for / some / every / filter / sort / function literal / context / named invocation / if / in / between / instance of, a decision that recurses 40-60 levels deep through a knowledge model and through a function literal, "
-        "a boxed context using a knowledge model, a decision service; generated graphs with nested decisions, BKM chains, tables and services), with seeded yields / spins / sleeps at the hook between lock "
+        "a boxed context using a knowledge model, a decision service; generated graphs with nested decisions, BKM chains, tables and services) plus a rotating window of the repository's own example models (every invocable, three input contexts each), with seeded yields / spins / sleeps at the hook between lock "
         "acquisitions; then 6 hammer rounds per repetition (all threads call one invocable with 2-4 alternating inputs, identical inputs recurring, no delays); each repetition ends with 3 rendezvous rounds (K = thread count evaluations held inside the evaluator at once); %d repetitions on the ThreadSanitizer build. Distinct = order signature of "
         "the logical-clock event log; non-trivial = repetition in which calls of different threads overlapped." % (reps, tsan_reps)
     )
@@ -124,10 +157,20 @@ def run(rep, tier, seed):
     ]
     rng = rng_for(seed, "c20")
     models, calls, services = build_workload(rng)
+    shipped = corpus(rep)
+    rep.extra["shipped_models_shared"] = len(shipped)
+    window = 4 if tier == "quick" else 3
     cases = []
     for r in range(reps):
         n = [2, 3, 4, 8, 16][r % 5]
-        cases.append({"op": "threads", "models": models, "calls": calls, "threads": n, "per_thread": rng.choice([60, 120, 400]) if n <= 8 else 60, "seed": rng.randint(1, 2 ** 48), "rendezvous": n, "gate_timeout_ms": 20000, "hammer_rounds": 6, "hammer_calls": 300 if n <= 8 else 150, "hammer_keys": rng.choice([2, 3, 4]), "hammer_prefer": services})
+        # a rotating window of the repository's example models joins the fixed ones (all of them are covered after
+        # len(shipped) / window repetitions)
+        models_r, calls_r = list(models), list(calls)
+        for k in range(window if shipped else 0):
+            name, text, mcalls = shipped[(r * window + k) % len(shipped)]
+            models_r.append(text)
+            calls_r += [[len(models_r) - 1, inv, inp] for inv, inp in mcalls]
+        cases.append({"op": "threads", "models": models_r, "calls": calls_r, "threads": n, "per_thread": rng.choice([60, 120, 400]) if n <= 8 else 60, "seed": rng.randint(1, 2 ** 48), "rendezvous": n, "gate_timeout_ms": 20000, "hammer_rounds": 6, "hammer_calls": 300 if n <= 8 else 150, "hammer_keys": rng.choice([2, 3, 4]), "hammer_prefer": services})
     results, meta = runner.run_cases("dbg", cases, rep.workdir, label="threads", nshards=4, case_timeout=180)
     sigs = set()
     total_calls = total_pairs = 0
@@ -187,7 +230,7 @@ def run(rep, tier, seed):
             rep.sample({k: res[k] for k in ("calls", "overlapping_pairs", "max_overlap_logical", "max_inside_hook", "order_signature", "rendezvous", "hook_events")})
     rep.distinct = sigs
     rep.extra.update({"call_events": total_calls, "overlapping_call_pairs": total_pairs, "max_observed_concurrency": max_conc, "distinct_overlap_signatures": len(sigs), "rendezvous_rounds": rv_rounds, "rendezvous_reached": rv_reached,
-                      "models": len(models), "distinct_calls": len(calls), "hammer_calls_identical_inputs": hammer_calls, "hammer_invocables_covered": len(hammer_targets)})
+                      "models": len(models) + len(shipped), "distinct_calls": len(calls) + sum(len(c) for _, _, c in shipped), "hammer_calls_identical_inputs": hammer_calls, "hammer_invocables_covered": len(hammer_targets)})
     # ---- ThreadSanitizer ----
     try:
         runner.build("tsan")
